@@ -79,6 +79,7 @@ CHECKS["C05"] = dict(engine="system", level=("model_checking", "Sched.tla is a t
     technique="TLA+ transcription of the scheduler (Sched.tla) model-checked by TLC in a closed environment (MCSched.tla) + trace validation of every real Scheduler.Update (TraceSched.tla)")
 HOOK_COMMITS.append("d1d8afab")
 HOOK_COMMITS.append("d2fc1936")
+HOOK_COMMITS.append("6afabbb7")
 
 NOT_YET = "machinery for this property is not built yet in this revision (work in progress; see DESIGN.md section 9 for the plan)"
 
